@@ -205,6 +205,7 @@ pub fn run_npz(sc: &Value, id: usize, out: Out) {
                     let d = rows[0].as_array().unwrap().len();
                     let mut m = Array2::<f64>::zeros((rows.len(), d));
                     for (i, r) in rows.iter().enumerate() { for (j, x) in r.as_array().unwrap().iter().enumerate() { m[[i, j]] = x.as_f64().unwrap(); } }
+                    let m = crate::tj::layout(m);
                     w.add_array(name, &m).unwrap();
                 }
                 "bias" => { let v = A1::from_iter(e["data"].as_array().unwrap().iter().map(|x| x.as_f64().unwrap())); w.add_array(name, &v).unwrap(); }
